@@ -178,6 +178,8 @@ class SymCtx:
         ex = self.ex
         if ex.model is not None:
             return "sat"
+        if getattr(ex, "shadow", None) is not None and not getattr(ex, "_shadow_left", False):
+            return "sat"        # a seeded path is witnessed by its seed
         r, m = ex.check()
         if r == "sat":
             ex.model = m
@@ -209,6 +211,11 @@ class SymCtx:
                     rec["by_witness"] = True
             except z3.Z3Exception:
                 pass
+        if r == "unknown" and ex.nonlinear and len(ex.cons) > 40 and ex.trig_ids:
+            # cheap first: the claim may already follow from the path condition by linear reasoning over opaque products
+            if ex.check_abstract(z3.Not(cond)) == "unsat":
+                r = "unsat"
+                rec["abstract"] = True
         sliced_first = r == "unknown" and ex.has_int and ex.nonlinear
         if sliced_first:
             # the path carries integer variables (modulo, rounding) that push every query to the generic solver;
@@ -242,7 +249,7 @@ class SymCtx:
                     if r2 == "sat":
                         m = m2
                         rec["sliced"] = "extended"
-        if r == "unknown" and not rec.get("param") and ex.subatoms:
+        if r == "unknown" and not rec.get("param") and (ex.subatoms or ex.trig_ids):
             pr = ex.check_param(z3.Not(cond), timeout_ms=self.claim_timeout_ms * 2)
             if pr is not None and pr[0] != "unknown":
                 r, m = pr
